@@ -51,13 +51,16 @@ structure Inv (sch : Sch) (r : Res) : Prop where
   pairs : ∀ d t c, XsiEntry.pair d t c ∈ r.xsi → ∀ d' ∈ sch.widen c d t, (c, d') ∈ r.sel
   /-- only namespaces that have a location get loaded on demand -/
   loadedOK : ∀ n ∈ r.loaded, n ∈ sch.loadable
+  /-- `identity.elements` is a function of its key: the selectors stored under a declaration are those of the
+      declaration's own type -/
+  cacheOK : ∀ e ∈ r.cache, e.2 = sch.declType e.1.2
 
 theorem inv_init (sch : Sch) : Inv sch Res.init := by
   constructor <;> simp [Res.init]
 
 /-- a write that cannot break the invariant in state `r` -/
 def wOK (sch : Sch) (r : Res) : Write → Prop
-  | .elem c d => Widenable sch c d
+  | .elem c d t => Widenable sch c d ∧ t = sch.declType d
   | .sel c d => Widenable sch c d
   | .pair d t c => ∀ d' ∈ sch.widen c d t, (c, d') ∈ r.sel
   | .type _ _ => True
@@ -69,14 +72,21 @@ def AllOK (sch : Sch) : Res → List Write → Prop
 theorem inv_apply {sch : Sch} {r : Res} {w : Write} (h : Inv sch r) (hw : wOK sch r w) :
     Inv sch (r.apply w) := by
   cases w with
-  | elem c d =>
-    refine ⟨h.sel, ?_, h.memo, h.pairs, h.loadedOK⟩
-    intro p hp
-    rcases mem_ins.1 hp with rfl | hp
-    · exact hw
-    · exact h.elems p hp
+  | elem c d t =>
+    refine ⟨h.sel, ?_, h.memo, h.pairs, h.loadedOK, ?_⟩
+    · intro p hp
+      rcases mem_ins.1 hp with rfl | hp
+      · exact hw.1
+      · exact h.elems p hp
+    · intro e he
+      simp only [Res.apply] at he
+      split at he
+      · exact h.cacheOK e he
+      · rcases List.mem_cons.1 he with rfl | he
+        · exact hw.2
+        · exact h.cacheOK e he
   | sel c d =>
-    refine ⟨?_, h.elems, h.memo, ?_, h.loadedOK⟩
+    refine ⟨?_, h.elems, h.memo, ?_, h.loadedOK, h.cacheOK⟩
     · intro p hp
       rcases mem_ins.1 hp with rfl | hp
       · exact hw
@@ -84,13 +94,13 @@ theorem inv_apply {sch : Sch} {r : Res} {w : Write} (h : Inv sch r) (hw : wOK sc
     · intro d1 t1 c1 hx d' hd'
       exact mem_ins.2 (Or.inr (h.pairs d1 t1 c1 hx d' hd'))
   | pair d t c =>
-    refine ⟨h.sel, h.elems, h.memo, ?_, h.loadedOK⟩
+    refine ⟨h.sel, h.elems, h.memo, ?_, h.loadedOK, h.cacheOK⟩
     intro d1 t1 c1 hx d' hd'
     rcases mem_ins.1 hx with heq | hx
     · cases heq; exact hw d' hd'
     · exact h.pairs d1 t1 c1 hx d' hd'
   | type d t =>
-    refine ⟨h.sel, h.elems, h.memo, ?_, h.loadedOK⟩
+    refine ⟨h.sel, h.elems, h.memo, ?_, h.loadedOK, h.cacheOK⟩
     intro d1 t1 c1 hx d' hd'
     rcases mem_ins.1 hx with heq | hx
     · cases heq
@@ -174,7 +184,7 @@ theorem mem_sel_apply {r : Res} {w : Write} {p : Con × Decl} (h : p ∈ (r.appl
     rcases mem_ins.1 h with rfl | h
     · exact Or.inr rfl
     · exact Or.inl h
-  | elem c d => exact Or.inl h
+  | elem c d t => exact Or.inl h
   | pair d t c => exact Or.inl h
   | type d t => exact Or.inl h
 
@@ -192,7 +202,7 @@ theorem mem_sel_writes : ∀ (ws : List Write) (r : Res) {p : Con × Decl},
 /-! ### `update_elements` -/
 
 theorem mem_updateWrites {sch : Sch} {c d t} {w : Write} (h : w ∈ updateWrites sch c d t) :
-    ∃ d' ∈ sch.widen c d t, w = .elem c d' ∨ w = .sel c d' := by
+    ∃ d' ∈ sch.widen c d t, w = .elem c d' (sch.declType d') ∨ w = .sel c d' := by
   simp only [updateWrites, List.mem_flatMap, List.mem_cons, List.not_mem_nil, or_false] at h
   obtain ⟨d', hd', h⟩ := h
   exact ⟨d', hd', h⟩
@@ -200,10 +210,12 @@ theorem mem_updateWrites {sch : Sch} {c d t} {w : Write} (h : w ∈ updateWrites
 theorem wOK_update {sch : Sch} {c d t} (hc : sch.isComplex t = true) :
     ∀ w ∈ updateWrites sch c d t, ∀ r', wOK sch r' w := by
   intro w hw r'
-  obtain ⟨d', hd', rfl | rfl⟩ := mem_updateWrites hw <;> exact ⟨d, t, hc, hd'⟩
+  obtain ⟨d', hd', rfl | rfl⟩ := mem_updateWrites hw
+  · exact ⟨⟨d, t, hc, hd'⟩, rfl⟩
+  · exact ⟨d, t, hc, hd'⟩
 
-theorem sat_flat (c : Con) : ∀ (l : List Decl) (r : Res), ∀ d' ∈ l,
-    (c, d') ∈ (applyWrites r (l.flatMap fun d' => [Write.elem c d', Write.sel c d'])).sel
+theorem sat_flat (c : Con) (f : Decl → TyId) : ∀ (l : List Decl) (r : Res), ∀ d' ∈ l,
+    (c, d') ∈ (applyWrites r (l.flatMap fun d' => [Write.elem c d' (f d'), Write.sel c d'])).sel
   | [], _, _, h => by simp at h
   | x :: l, r, d', h => by
     simp only [List.flatMap_cons, List.cons_append, List.nil_append, applyWrites_cons]
@@ -211,11 +223,11 @@ theorem sat_flat (c : Con) : ∀ (l : List Decl) (r : Res), ∀ d' ∈ l,
     · apply sel_mono_writes
       simp only [Res.apply]
       exact mem_ins.2 (Or.inl rfl)
-    · exact sat_flat c l _ d' h
+    · exact sat_flat c f l _ d' h
 
 theorem sat_update (sch : Sch) (c d t) (r : Res) : ∀ d' ∈ sch.widen c d t,
     (c, d') ∈ (applyWrites r (updateWrites sch c d t)).sel :=
-  sat_flat c _ r
+  sat_flat c _ _ r
 
 theorem allOK_block {sch : Sch} {c d t} (hc : sch.isComplex t = true) (r : Res) :
     AllOK sch r (updateWrites sch c d t ++ [.pair d t c]) := by
@@ -316,6 +328,39 @@ theorem lookup_mem {k v : Nat} {l : List (Nat × Nat)} (h : l.lookup k = some v)
       cases h; subst this; exact List.mem_cons_self ..
     · exact List.mem_cons_of_mem _ (ih h)
 
+theorem lookup_mem' {α β} [BEq α] [LawfulBEq α] {k : α} {v : β} {l : List (α × β)} (h : l.lookup k = some v) :
+    (k, v) ∈ l := by
+  induction l with
+  | nil => simp at h
+  | cons a l ih =>
+    obtain ⟨a1, a2⟩ := a
+    simp only [List.lookup_cons] at h
+    split at h
+    · rename_i heq
+      have : k = a1 := by simpa using heq
+      cases h; subst this; exact List.mem_cons_self ..
+    · exact List.mem_cons_of_mem _ (ih h)
+
+/-- with the invariant, the selectors in use are always those of the type the element is validated with:
+    stored ones are read only for the declared type, and they are typed by the declaration -/
+theorem typing_eq {sch : Sch} {r : Res} {ctx : Ctx} {d : Decl} {t : TyId} (h : Inv sch r) :
+    typingOf sch r ctx d t = (ctx.filter (·.2)).map fun p => (p.1, t) := by
+  simp only [typingOf]
+  apply List.map_congr_left
+  intro p _
+  congr 1
+  split
+  · rename_i ht
+    have ht' : t = sch.declType d := by simpa using ht
+    simp only [cachedTy]
+    split
+    · rename_i v hv
+      have := h.cacheOK _ (lookup_mem' hv)
+      simp only at this
+      simp [this, ht']
+    · split <;> simp [ht']
+  · rfl
+
 theorem allOK_budgeted {sch : Sch} {r : Res} {ws : List Write} (b : Option Nat) (h : AllOK sch r ws) :
     AllOK sch r (budgeted ws b) := by
   cases b with
@@ -343,7 +388,7 @@ theorem stale_writes : ∀ (ws : List Write) (r : Res), (applyWrites r ws).stale
 
 theorem inv_rebuild {sch : Sch} {r : Res} {n : Nat} (h : Inv sch r) (hn : n ∈ sch.loadable) :
     Inv sch (rebuild r n) := by
-  refine ⟨?_, ?_, ?_, ?_, ?_⟩ <;> simp only [rebuild]
+  refine ⟨?_, ?_, ?_, ?_, ?_, ?_⟩ <;> simp only [rebuild]
   · intro p hp; simp at hp
   · intro p hp; simp at hp
   · intro p hp; simp at hp
@@ -352,6 +397,7 @@ theorem inv_rebuild {sch : Sch} {r : Res} {n : Nat} (h : Inv sch r) (hn : n ∈ 
     rcases List.mem_cons.1 hk with rfl | hk
     · exact hn
     · exact h.loadedOK k hk
+  · intro e he; simp at he
 
 theorem wild_fst (sch : Sch) (m : Mode) (r : Res) (a : Bool) (pc : PC) (n : Nat) :
     (wildStep sch m r a pc n).1 = r ∨
@@ -374,7 +420,7 @@ theorem inv_wild {sch : Sch} (m : Mode) {r : Res} (a : Bool) (pc : PC) (n : Nat)
   · rw [e]; exact inv_rebuild h (by simpa using hl)
 
 theorem inv_unstale {sch : Sch} {r : Res} (h : Inv sch r) : Inv sch { r with stale := false } :=
-  ⟨h.sel, h.elems, h.memo, h.pairs, h.loadedOK⟩
+  ⟨h.sel, h.elems, h.memo, h.pairs, h.loadedOK, h.cacheOK⟩
 
 theorem inv_step (sch : Sch) (m : Mode) (s : Res × Ctx) (x : Step) (h : Inv sch s.1) :
     Inv sch (step sch m s x).1.1 := by
@@ -390,16 +436,17 @@ theorem inv_step (sch : Sch) (m : Mode) (s : Res × Ctx) (x : Step) (h : Inv sch
   | setCtx ctx => exact h
   | wild a pc n => exact inv_wild m a pc n h
   | nsRead n => exact inv_unstale h
+  | fields d t => exact h
   | memoCall k =>
     simp only [step]
     split
     · exact h
-    · refine ⟨h.sel, h.elems, ?_, h.pairs, h.loadedOK⟩
+    · refine ⟨h.sel, h.elems, ?_, h.pairs, h.loadedOK, h.cacheOK⟩
       intro kv hkv
       rcases List.mem_cons.1 hkv with rfl | hkv
       · rfl
       · exact h.memo kv hkv
-  | scratchUse dirt => exact ⟨h.sel, h.elems, h.memo, h.pairs, h.loadedOK⟩
+  | scratchUse dirt => exact ⟨h.sel, h.elems, h.memo, h.pairs, h.loadedOK, h.cacheOK⟩
 
 theorem inv_run (sch : Sch) (m : Mode) : ∀ (doc : List Step) (s : Res × Ctx), Inv sch s.1 →
     Inv sch (run sch m s doc).1.1
@@ -428,6 +475,7 @@ theorem step_mono (sch : Sch) (m : Mode) (s : Res × Ctx) (x : Step) (hw : isWil
         fun p hp => xsi_mono_writes _ _ hp⟩
   | wild a pc n => simp [isWild] at hw
   | nsRead n => exact ⟨fun _ h => h, fun _ h => h, fun _ h => h⟩
+  | fields d t => exact ⟨fun _ h => h, fun _ h => h, fun _ h => h⟩
   | memoCall k =>
     simp only [step]
     split <;> exact ⟨fun _ h => h, fun _ h => h, fun _ h => h⟩
@@ -497,6 +545,7 @@ theorem stale_step_plain (sch : Sch) (m : Mode) (r : Res) (ctx : Ctx) (x : Step)
   | nsRead n => simp [stepPlain] at hc
   | enter ids => rfl
   | collect d => rfl
+  | fields d t => rfl
   | leave ids => rfl
   | setCtx c => rfl
   | scratchUse dirt => rfl
@@ -559,6 +608,7 @@ theorem step_rel (sch : Sch) (r1 r2 : Res) (ctx : Ctx) (x : Step) (hrel : Rel sc
     | scratchUse dirt => rfl
     | wild a pc n => simp [stepPlain] at hc
     | nsRead n => simp [stepPlain] at hc
+    | fields d t => simp only [step, typing_eq hrel.i1, typing_eq hrel.i2]
   · cases x with
     | xsiType d t b =>
       cases b with
@@ -587,6 +637,7 @@ theorem step_rel (sch : Sch) (r1 r2 : Res) (ctx : Ctx) (x : Step) (hrel : Rel sc
       rw [b1]; rw [b2] at hp; exact hrel.sub p hp
     | enter ids => exact hrel.sub
     | collect d => exact hrel.sub
+    | fields d t => exact hrel.sub
     | leave ids => exact hrel.sub
     | setCtx c => exact hrel.sub
     | scratchUse dirt => exact hrel.sub
@@ -649,6 +700,7 @@ theorem dependent_gen (sch : Sch) : ∀ (doc : List Step) (r2 : Res) (ctx : Ctx)
         simp [hs] at hq
       | wild a pc n => simp [stepOK] at hok
       | nsRead n => simp [stepOK] at hok
+      | fields d t => simp [stepOK] at hok
       | enter ids => simp [stepOK] at hok
       | xsiType d t b => simp [stepOK] at hok
       | leave ids => simp [stepOK] at hok
@@ -736,6 +788,7 @@ theorem ungated_step (sch : Sch) (r1 r2 : Res) (ctx : Ctx) (x : Step) (h1 : Inv 
     simp only [step, isLoaded_stable h1 hs, isLoaded_stable h2 hs]
   | enter ids => rfl
   | xsiType d t b => simp only [step]; split <;> split <;> rfl
+  | fields d t => simp only [step, typing_eq h1, typing_eq h2]
   | leave ids => rfl
   | setCtx c => rfl
   | scratchUse dirt => rfl
@@ -777,6 +830,7 @@ theorem loaded_mono_step (sch : Sch) (m : Mode) (s : Res × Ctx) (x : Step) {n :
   | nsRead k => exact h
   | enter ids => exact h
   | collect d => exact h
+  | fields d t => exact h
   | leave ids => exact h
   | setCtx c => exact h
   | scratchUse dirt => exact h
@@ -795,6 +849,7 @@ theorem loaded_nil_step (sch : Sch) (r : Res) (ctx : Ctx) (x : Step) (hi : Inv s
   | nsRead k => exact h
   | enter ids => exact h
   | collect d => exact h
+  | fields d t => exact h
   | leave ids => exact h
   | setCtx c => exact h
   | scratchUse dirt => exact h
@@ -849,6 +904,7 @@ theorem ns_dependent_gen (sch : Sch) : ∀ (doc : List Step) (r2 : Res) (ctx : C
           simp [isLoaded, hb', hl]
         simp [run, step, l1, l2] at heq
       | enter ids => simp [stepQuiet] at hx
+      | fields d t => simp [stepQuiet] at hx
       | xsiType d t b => simp [stepQuiet] at hx
       | collect d => simp [stepQuiet] at hx
       | leave ids => simp [stepQuiet] at hx
